@@ -49,7 +49,7 @@ func check(c Case) error {
 
 type shape struct {
 	regPath, abnormalExit, manyInts, nestedLit bool
-	loops                                    int
+	loops                                      int
 }
 
 func analyse(stmts []*gen.Node) shape {
@@ -63,7 +63,7 @@ func analyse(stmts []*gen.Node) shape {
 		case gen.KFor:
 			sh.loops++
 			c := n.Kids[0]
-			counted := c.K == gen.KInt || (c.K == gen.KInfix && c.S == "=" ) || c.K == gen.KInfix && c.S == "%"
+			counted := c.K == gen.KInt || (c.K == gen.KInfix && c.S == "=") || c.K == gen.KInfix && c.S == "%"
 			if counted {
 				sh.regPath = true
 			}
